@@ -1,3 +1,4 @@
+import math
 from typing import Union
 
 import torch
@@ -54,8 +55,13 @@ class LotkaVolterraOscillating:
             loc=mean, covariance_matrix=covariance
         )
         self._uniform = BoxUniform(low=-5 * torch.ones(4), high=2 * torch.ones(4))
+        # Mass of N(mean, sigma^2) inside [-5, 2], per dimension: (erf((b - m) / (sigma sqrt 2)) - erf((a - m) / (sigma sqrt 2))) / 2.
         self._log_normalizer = -torch.log(
-            torch.erf((2 - mean) / sigma) - torch.erf((-5 - mean) / sigma)
+            0.5
+            * (
+                torch.erf((2 - mean) / (sigma * math.sqrt(2)))
+                - torch.erf((-5 - mean) / (sigma * math.sqrt(2)))
+            )
         ).sum()
 
     def log_prob(self, value):
